@@ -3,6 +3,7 @@ import struct
 from runner import Prop, Case
 import vlib
 from gen import enc_value, fbits
+from props.c01 import lit
 
 def f32(x):
     return struct.unpack(">f", struct.pack(">f", x))[0]
@@ -151,6 +152,34 @@ class C04(Prop):
                     expect["o%d.%s" % (kk, f)] = val
             out.append(Case("run", {"script": vlib.hx(src), "objs": obj + ";" + obj2, "ops": ";".join(allops)}, "fields",
                             expect=expect, nontrivial=bool(fields), note=src))
+        # struct types with unexported fields and embedded structs (static Go types of harness/hosttypes.go): the exported fields
+        # must be readable whatever else the struct holds; what reflection refuses to hand over is null
+        for _ in range(400 if tier == "thorough" else 60):
+            nm, cnt = rng.choice(["bob", "", "héllo"]), rng.choice([0, 7, 70000])
+            k = rng.choice("12345")
+            obj = "K%s(%s,%d)" % (k, vlib.hx(nm), cnt)
+            views = {"1": {"Name": nm, "Count": cnt, "priv": 3, "secret": "s3cr3t", "ratio": 2.5, "flag": True},
+                     "2": {"Name": nm, "Count": cnt, "p": None, "when": None, "inn": None, "i": None},
+                     "3": {"Name": nm, "Count": cnt, "l": None, "s": None, "m": {"a": 1, "b": None, "c": None, "d": "x"}},
+                     "4": {"Name": nm, "Count": cnt, "privInner": None},
+                     # (whether the fields of an embedded struct are visible under their own names is not demanded either way;
+                     # the struct's own field of the same name must win)
+                     "5": {"Name": nm, "ID": cnt, "PubInner": None}}[k]
+            names = list(views)
+            probe = rng.sample(names, min(len(names), rng.randint(1, 3)))
+            src = "return [%s];" % ", ".join(probe)
+            if rng.random() < 0.3:
+                f = rng.choice(names)
+                src = "x = %s; if (Name == %s) { return [x, Name]; } return [x];" % (f, lit(nm))
+                want = [views[f], nm]
+            else:
+                want = [views[f] for f in probe]
+            op = rng.choice(["exec:0", "exec:0;exec:0"])
+            exp = {}
+            for j in range(len(op.split(";"))):
+                exp["o%d.class" % (1 + j)] = "ok"
+                exp["o%d.value" % (1 + j)] = enc_value(want)
+            out.append(Case("run", {"script": vlib.hx(src), "objs": obj, "ops": "prepare:opt;" + op}, "unexported-fields", expect=exp, note=src))
         # hostile top-level objects: never a crash
         for obj in ["N", "I0.5", "S" + vlib.hx("str"), "Li(I0.1)", "Q", "Z", "P(I0.5)", "O0(S61=S62)", "O1(I0.1=I0.2)", "F64.%s" % fbits(1.5), "B1",
                     "R(%s=Z)" % vlib.hx("C"), "R(%s=Q,%s=O0(S61=S62))" % (vlib.hx("A"), vlib.hx("B")), "M(%s=O0(S61=S62))" % vlib.hx("k"),
